@@ -5,7 +5,7 @@ back, C variables resolved, and every node of the effect term - all BRANCH/ITE a
 inlined callee bodies - is typed with the rules of rz_il_validate (DESIGN appendix B)."""
 import collections
 
-from .. import common, outfamily, pipeline
+from .. import common, findings, outfamily, pipeline
 
 
 def main(tier):
@@ -36,7 +36,9 @@ def main(tier):
         if r["unknown"]:
             unknown += 1
             run.note_inconclusive(f"{it['name']}: {r['unknown'][:2]}")
-        if r["sorts"]:
+        if r["sorts"] and findings.redeclared_signature(it["src"], probs=r["sorts"]) and run.known("flat_local_namespace", {"source": it["src"], "problems": r["sorts"][:2]}):
+            bad += 1
+        elif r["sorts"]:
             bad += 1
             for pr in r["sorts"][:3]:
                 rule = pr.split(":")[0]
